@@ -97,10 +97,32 @@ def sym_args(ctx, cls, dim, latlon, temporal, tag="", constrain=True, interior=F
     return a, opt, ob, mdim
 
 
-def build(cls, dim, latlon, temporal, a, opt):
-    return _quiet(getattr(gs, cls), dim=dim, var=a["var"], len_scale=a["len_scale"],
-                  nugget=a["nugget"], anis=list(a["anis"]), angles=list(a["angles"]),
-                  rescale=a["rescale"], latlon=latlon, temporal=temporal, **opt)
+CLOSED_ISCALE = ("Gaussian", "Exponential", "Stable", "Matern", "Integral", "Rational")
+
+
+def build(cls, dim, latlon, temporal, a, opt, warm=True):
+    m = _quiet(getattr(gs, cls), dim=dim, var=a["var"], len_scale=a["len_scale"],
+               nugget=a["nugget"], anis=list(a["anis"]), angles=list(a["angles"]),
+               rescale=a["rescale"], latlon=latlon, temporal=temporal, **opt)
+    if warm:
+        # read every lazily computed / cached derived quantity once BEFORE the operation under
+        # contract, so that a stale cache cannot hide behind a first access
+        _ = (m.sill, m.len_scale_vec, m.len_rescaled, m.spatial_dim, m.field_dim)
+        if cls in CLOSED_ISCALE and not (cls == "Rational"):
+            _ = m.integral_scale
+    return m
+
+
+def derived_eq(ctx, m, cls, latlon, temporal):
+    """derived quantities reported by `m` equal those of a model constructed directly with the
+    values `m` now reports"""
+    f = fresh_like(m, cls, latlon, temporal)
+    cs = [ctx.eq(m.sill, f.sill), ctx.eq(m.len_scale_vec, f.len_scale_vec), ctx.eq(m.len_rescaled, f.len_rescaled),
+          m.field_dim == f.field_dim, m.spatial_dim == f.spatial_dim]
+    if cls in CLOSED_ISCALE and cls != "Rational":
+        cs.append(ctx.eq(m.integral_scale, f.integral_scale))
+        cs.append(ctx.eq(m.integral_scale_vec, f.integral_scale_vec))
+    return ctx.And(*cs)
 
 
 SKIP = ("_sft", "_integral_scale", "_prec")
@@ -257,6 +279,7 @@ def _setter_contract(name, attr, bound, classes):
         ctx.ensure("frame", view_eq(ctx, view(m), old, skip=(attr,)))
         ctx.ensure("inv", inv(ctx, m, cls, latlon, temporal))
         ctx.ensure("equals-fresh-model", view_eq(ctx, view(m), view(fresh_like(m, cls, latlon, temporal))))
+        ctx.ensure("derived-quantities=fresh-model", derived_eq(ctx, m, cls, latlon, temporal))
     return c
 
 
@@ -285,6 +308,7 @@ def len_scalar(ctx, cls, dim, latlon, temporal):
     ctx.ensure("var-raw-kept", ctx.eq(m.var_raw, old["_var"]))
     ctx.ensure("inv", inv(ctx, m, cls, latlon, temporal))
     ctx.ensure("equals-fresh-model", view_eq(ctx, view(m), view(fresh_like(m, cls, latlon, temporal))))
+    ctx.ensure("derived-quantities=fresh-model", derived_eq(ctx, m, cls, latlon, temporal))
 
 
 @contract(P, "CovModel.len_scale.setter[list]/redefines-anisotropy", params=configs(REPR),
@@ -312,6 +336,7 @@ def len_list(ctx, cls, dim, latlon, temporal):
     ctx.ensure("frame", view_eq(ctx, view(m), old, skip=("_len_scale", "_anis")))
     ctx.ensure("inv", inv(ctx, m, cls, latlon, temporal))
     ctx.ensure("equals-fresh-model", view_eq(ctx, view(m), view(fresh_like(m, cls, latlon, temporal))))
+    ctx.ensure("derived-quantities=fresh-model", derived_eq(ctx, m, cls, latlon, temporal))
 
 
 @contract(P, "CovModel.anis.setter/state", params=[c for c in configs(REPR) if c["dim"] > 1],
@@ -336,6 +361,7 @@ def anis_set(ctx, cls, dim, latlon, temporal):
     ctx.ensure("frame", view_eq(ctx, view(m), old, skip=("_anis",)))
     ctx.ensure("inv", inv(ctx, m, cls, latlon, temporal))
     ctx.ensure("equals-fresh-model", view_eq(ctx, view(m), view(fresh_like(m, cls, latlon, temporal))))
+    ctx.ensure("derived-quantities=fresh-model", derived_eq(ctx, m, cls, latlon, temporal))
 
 
 @contract(P, "CovModel.angles.setter/state", params=[c for c in configs(REPR) if c["dim"] > 1],
@@ -358,6 +384,7 @@ def angles_set(ctx, cls, dim, latlon, temporal):
     ctx.ensure("frame", view_eq(ctx, view(m), old, skip=("_angles",)))
     ctx.ensure("inv", inv(ctx, m, cls, latlon, temporal))
     ctx.ensure("equals-fresh-model", view_eq(ctx, view(m), view(fresh_like(m, cls, latlon, temporal))))
+    ctx.ensure("derived-quantities=fresh-model", derived_eq(ctx, m, cls, latlon, temporal))
 
 
 @contract(P, "CovModel.rescale.setter/state", params=configs(REPR),
@@ -372,6 +399,7 @@ def rescale_set(ctx, cls, dim, latlon, temporal):
     ctx.ensure("value-set", ctx.eq(m.rescale, ctx.m.abs(x)))
     ctx.ensure("frame", view_eq(ctx, view(m), old, skip=("_rescale",)))
     ctx.ensure("len-rescaled", ctx.eq(m.len_rescaled * m.rescale, m.len_scale))
+    ctx.ensure("derived-quantities=fresh-model", derived_eq(ctx, m, cls, latlon, temporal))
 
 
 def _opt_configs():
@@ -404,6 +432,7 @@ def opt_set(ctx, cls, dim, latlon, temporal, opt):
     ctx.ensure("frame", view_eq(ctx, view(m), old, skip=(opt,)))
     ctx.ensure("var-raw-kept", ctx.eq(m.var_raw, old["_var"]))
     ctx.ensure("inv", inv(ctx, m, cls, latlon, temporal))
+    ctx.ensure("derived-quantities=fresh-model", derived_eq(ctx, m, cls, latlon, temporal))
 
 
 def _dim_configs():
@@ -446,6 +475,8 @@ def dim_set(ctx, cls, dim, dim2, temporal):
     ctx.ensure("frame", view_eq(ctx, view(m), old, skip=("_dim", "_anis", "_angles", "_opt_arg_bounds")))
     ctx.ensure("inv", inv(ctx, m, cls, latlon, temporal, with_opt=False))
     ctx.ensure("optional-arguments-valid-in-new-dim", opt_in_bounds(ctx, m))
+    if cls not in ("SuperSpherical", "JBessel", "TPLSimple"):      # their bounds move with dim (F10)
+        ctx.ensure("derived-quantities=fresh-model", derived_eq(ctx, m, cls, latlon, temporal))
 
 
 INT_SCALE = ["Gaussian", "Exponential", "Stable", "Rational"]
@@ -467,3 +498,63 @@ def int_scale_set(ctx, cls, dim, latlon, temporal):
     ctx.ensure("integral-scale-met", ctx.eq(m.calc_integral_scale(), x))
     ctx.ensure("frame", view_eq(ctx, view(m), old, skip=("_len_scale",)))
     ctx.ensure("inv", inv(ctx, m, cls, latlon, temporal))
+
+
+# --- constructor with a prescribed integral scale (+ variance): ghost for scipy.integrate.quad ---------
+_REAL_QUAD = None
+
+
+def install_quad_stub():
+    """covmodel.base.integral (scipy quad) -> ghost: the integral of the model's correlation is an
+    uninterpreted function of the numeric model view; assumed (T5/T8) homogeneous of degree one in
+    the length scale (substitution r -> r * len_scale), which the integral_scale setter relies on"""
+    global _REAL_QUAD
+    import gstools.covmodel.base as B
+    from gsvc import symrun
+    if _REAL_QUAD is not None:
+        return
+    _REAL_QUAD = B.integral
+
+    def integral(fun, a, b, *args, **kw):
+        owner = getattr(fun, "__self__", None)
+        if symrun.symbolic_active() and owner is not None:
+            unit = symrun.uf("quad_cor_" + type(owner).__name__, 1, owner.rescale,
+                             *[getattr(owner, k) for k in owner.opt_arg])
+            symrun.CUR.add_assume(unit.t > 0)
+            return (owner.len_scale * unit, 0.0)
+        return _REAL_QUAD(fun, a, b, *args, **kw)
+    B.integral = integral
+    symrun.SHIM_LOG.append("gstools.covmodel.base.integral (scipy quad) -> ghost: integral of the correlation = "
+                           "len_scale * I(rescale, optional arguments), I > 0 uninterpreted")
+
+
+@contract(P, "CovModel.__init__[integral_scale]/state",
+          params=[{"cls": c, "dim": d} for c in ("Gaussian", "Stable", "TPLGaussian", "TPLStable", "Cubic") for d in (1, 3)],
+          functions=FN_BASE + ["covmodel/base.py:CovModel.integral_scale"], timeout=60)
+def ctor_int_scale(ctx, cls, dim):
+    """constructing with var AND integral_scale: the variance and sill are the requested ones (the
+    variance of truncated-power-law models follows the final length scale), the integral scale is met"""
+    install_quad_stub()
+    latlon = temporal = False
+    ob, mdim = opt_info(cls, dim, latlon, temporal)
+    v, n, isc = ctx.real("var", pos=True), ctx.real("nug", nonneg=True), ctx.real("iscale", pos=True)
+    ctx.require(ctx.And(ctx.gt(v, 0), ctx.ge(n, 0), ctx.gt(isc, 0)))
+    opt = {}
+    for k, b in ob.items():
+        lo = b[0] if b[0] != -np.inf else -5.0
+        hi = b[1] if b[1] != np.inf else lo + 5.0
+        opt[k] = ctx.real(k, lo=lo + 0.1 * (hi - lo), hi=hi - 0.1 * (hi - lo))
+        ctx.require(in_bound(ctx, opt[k], b))
+    if "len_low" in opt:
+        ctx.require(ctx.le(opt["len_low"], 0))      # the seeded scenario: lower cut-off 0
+        opt["len_low"] = 0.0
+    try:
+        m = _quiet(getattr(gs, cls), dim=dim, var=v, nugget=n, integral_scale=isc, **opt)
+    except ValueError:
+        ctx.ensure("accepted", False)       # in-bound arguments must not be rejected
+        return
+    ctx.ensure("var=requested", ctx.eq(m.var, v))
+    ctx.ensure("sill=var+nugget", ctx.eq(m.sill, v + n))
+    ctx.ensure("integral-scale-met", ctx.eq(m.integral_scale, isc))
+    m2 = _quiet(getattr(gs, cls), dim=dim, var=v, nugget=n, len_scale=m.len_scale, **opt)
+    ctx.ensure("equals-model-built-from-resulting-len_scale", view_eq(ctx, view(m), view(m2)))
